@@ -80,7 +80,11 @@ func LayerConvertFunc(opts ...estargz.Option) converter.ConvertFunc {
 		}
 		defer ra.Close()
 		sr := io.NewSectionReader(ra, 0, desc.Size)
-		blob, err := estargz.Build(sr, append(opts, estargz.WithContext(ctx))...)
+		// opts is shared by all (concurrent) calls of this ConvertFunc: never append to it in place
+		buildOpts := make([]estargz.Option, 0, len(opts)+1)
+		buildOpts = append(buildOpts, opts...)
+		buildOpts = append(buildOpts, estargz.WithContext(ctx))
+		blob, err := estargz.Build(sr, buildOpts...)
 		if err != nil {
 			return nil, err
 		}
